@@ -28,6 +28,9 @@ abbrev Name := List Char
 inductive Entry
   | subdir                     -- `attachments/`, …: not a regular file, skipped (`os.path.isfile`)
   | other                      -- a regular (text) file no backend can load: report.html, notes, …: skipped
+  | hostile                    -- a regular file on which a backend raises something ELSE than `ReportLoadingError`: a file that is
+                               -- not UTF-8 text (`UnicodeDecodeError`), a file holding a JSON scalar / array such as a pid file
+                               -- `4242` (`AttributeError`) — open finding C09/roundtrip/directory-load-crashes-on-foreign-file
   | file (c : Content)         -- a file written by a backend (whatever its name: the loader never looks at the name)
 
 structure Dir where
@@ -42,35 +45,49 @@ def findDir (n : Name) : FS → Option Dir
   | [] => none
   | d :: ds => if d.name = n then some d else findDir n ds
 
-/-- `load_report_from_file` inside `load_reports_from_dir`: the report, or nothing (skipped) -/
-def loadEntry : Entry → Option Report
+/-- what `load_report_from_file` does on one entry inside `load_reports_from_dir` -/
+inductive Load
+  | skip                        -- not a regular file, or `ReportLoadingError` (caught)
+  | crash                       -- another exception: it escapes `load_reports_from_dir`
+  | report (r : Report)
+
+def loadEntry : Entry → Load
   | .file c =>
     match loadContent c with
-    | .loaded r => some r
-    | _ => none
-  | _ => none
+    | .loaded r => .report r
+    | _ => .skip
+  | .hostile => .crash
+  | _ => .skip
 
-/-- `list(load_reports_from_dir(dir))` -/
-def loadAll : List (Name × Entry) → List Report
-  | [] => []
+/-- `list(load_reports_from_dir(dir))`; `none`: an exception escaped -/
+def loadAll : List (Name × Entry) → Option (List Report)
+  | [] => some []
   | (_, e) :: rest =>
     match loadEntry e with
-    | some r => r :: loadAll rest
-    | none => loadAll rest
+    | .skip => loadAll rest
+    | .crash => none
+    | .report r => (loadAll rest).map (r :: ·)
 
 inductive DirOutcome
   | noDir                       -- nothing of that name: `load_report` falls to the file loader, which raises
   | noReport                    -- "Cannot find any report in directory"
+  | crashed                     -- an exception other than `ReportLoadingError` escaped
   | loaded (r : Report)
+
+/-- `next(load_reports_from_dir(dir))`: the generator is consumed up to the first report only -/
+def firstLoad : List (Name × Entry) → DirOutcome
+  | [] => .noReport
+  | (_, e) :: rest =>
+    match loadEntry e with
+    | .skip => firstLoad rest
+    | .crash => .crashed
+    | .report r => .loaded r
 
 /-- `load_report(<directory>)` -/
 def loadDir (fs : FS) (n : Name) : DirOutcome :=
   match findDir n fs with
   | none => .noDir
-  | some d =>
-    match loadAll d.entries with
-    | [] => .noReport
-    | r :: _ => .loaded r
+  | some d => firstLoad d.entries
 
 /-! ### saving: temporary file, then `os.replace` -/
 
